@@ -57,6 +57,8 @@ type Frame struct {
 	rets     []retRec
 	depth    int
 	loops    map[*ssa.BasicBlock]*loopInfo
+	assertDone map[string]bool
+	atInstr    int // index in the current block of the instruction an anchored assertion stands before (-1: none)
 	curBlock *ssa.BasicBlock
 	curGuard string
 	params   map[string]Val
@@ -68,7 +70,7 @@ type Frame struct {
 }
 
 func (c *Ctx) newFrame(fn *ssa.Function, top bool) *Frame {
-	f := &Frame{c: c, fn: fn, vals: map[ssa.Value]Val{}, top: top, loops: map[*ssa.BasicBlock]*loopInfo{}, params: map[string]Val{}, callOrd: map[string]int{}, textOrd: map[string]int{}}
+	f := &Frame{c: c, fn: fn, vals: map[ssa.Value]Val{}, top: top, loops: map[*ssa.BasicBlock]*loopInfo{}, params: map[string]Val{}, callOrd: map[string]int{}, textOrd: map[string]int{}, atInstr: -1}
 	f.contract = c.W.Specs.Contracts[funcKey(fn)]
 	return f
 }
@@ -1058,6 +1060,11 @@ func (f *Frame) lookupLocal(name string, at *ssa.BasicBlock, st *State) (Val, bo
 			blk := x.Block()
 			if blk == at {
 				_, isPhi := v.(*ssa.Phi)
+				if !isPhi && f.atInstr >= 0 {
+					// resolving names for an assertion in the middle of the block:
+					// what was computed earlier in the block is in scope
+					return instrIndex(x) < f.atInstr
+				}
 				return isPhi
 			}
 			return blk.Dominates(at)
